@@ -80,14 +80,54 @@ func ExtDeflate(args []string) string {
 	if err != nil {
 		return "-"
 	}
-	for _, o := range strings.Split(args[1], ",") {
+	var data []byte
+	ops := strings.Split(args[1], ",")
+	for _, o := range ops {
 		if o == "f" {
 			zw.Flush()
 		} else if strings.HasPrefix(o, "w:") {
-			zw.Write(UnHex(o[2:]))
+			d := UnHex(o[2:])
+			data = append(data, d...)
+			zw.Write(d)
+		}
+	}
+	if len(ops) > 0 && ops[len(ops)-1] == "f" {
+		// contract K1 of the round-trip theorems (coq/XFlate/RoundTripStmt.v): what the real
+		// compressor has emitted after a Flush is a sequence of complete non-final DEFLATE
+		// blocks for exactly the data written, ending in the sync marker. Recorded here,
+		// evaluated by the extracted model in FlushK1.
+		k := Hex(bb.Bytes()) + " " + Hex(data)
+		if !k1Seen[k] && len(k1Seen) < 200000 {
+			k1Seen[k] = true
+			k1Pending = append(k1Pending, [2]string{Hex(bb.Bytes()), Hex(data)})
 		}
 	}
 	return Hex(bb.Bytes())
+}
+
+var k1Seen = map[string]bool{}
+var k1Pending [][2]string
+
+// FlushK1 asks the model to evaluate contract K1 on every (chunk, data) pair the real
+// compressor produced since the last call; at most max pairs per call (0 = all).
+func (r *Run) FlushK1(m *Model, max int) {
+	n := 0
+	for _, p := range k1Pending {
+		if max > 0 && n >= max {
+			break
+		}
+		n++
+		c, d := p[0], p[1]
+		if c == "" {
+			c = "-"
+		}
+		if d == "" {
+			d = "-"
+		}
+		r.Eval("k1-contract", false)
+		r.CaseLive(m, "xk1", []string{c, d}, "k1-ok")
+	}
+	k1Pending = k1Pending[:0]
 }
 
 // CaseLive asks the running model and records the triple (case, impl, model).
